@@ -182,14 +182,14 @@ Theorem C03_step_rename_partial : forall (s : fsys) (sv : sview) (wo : list str)
   (fst (rename s (sv_view sv) o p), proj_res Linux (snd (rename s (sv_view sv) o p))) = go_rename s sv o p.
 Proof. exact dstep_rename_file_new. Qed.
 
-(* Rename of a directory to a name that does not exist.  [moved_dir_writable]: listed C03-RENAME-DIR-WRITE;
+(* Rename of a directory to a name that does not exist: moving it to ANOTHER directory needs write permission on the
+   moved directory itself (EACCES; this was the deviation C03-RENAME-DIR-WRITE and a premise [moved_dir_writable]);
    [not_into_itself]: the two own-subtree tests (string prefix / ancestor walk) both say no - their agreement is not
    proved here *)
 Theorem C03_step_rename_dir_partial : forall (s : fsys) (sv : sview) (wo : list str) (clo : str) (w : list str) (cl : str),
   dac_hyps s sv -> path_ok s sv SlLstat (wo ++ [clo]) -> path_ok s sv SlLstat (w ++ [cl]) ->
   source_is_dir s sv (wo ++ [clo]) -> dest_absent s sv (w ++ [cl]) -> rename_one_error s sv (wo ++ [clo]) (w ++ [cl]) ->
   not_into_itself s sv (wo ++ [clo]) (w ++ [cl]) ->
-  moved_dir_writable s sv (wo ++ [clo]) (w ++ [cl]) ->
   let o := abs_path (wo ++ [clo]) in
   let p := abs_path (w ++ [cl]) in
   (fst (rename s (sv_view sv) o p), proj_res Linux (snd (rename s (sv_view sv) o p))) = go_rename s sv o p.
@@ -197,12 +197,12 @@ Proof. exact dstep_rename_dir_new. Qed.
 
 (* Rename of a file or link onto an existing file or link: the DECISION (allowed / refused, errno) is the kernel's.
    The resulting heaps differ in the order of the destination directory's children (map overwrite vs unlink + add),
-   so only the result is compared.  [distinct_nodes]: C03-RENAME-SAME; the sticky rule of both directories (source entry, replaced entry)
-   is covered *)
+   so only the result is compared.  The same object under its two names (or the same path twice) is covered: success on
+   both sides before any permission check (this was the deviation C03-RENAME-SAME and a premise [distinct_nodes]); so is the
+   sticky rule of both directories (source entry, replaced entry) *)
 Theorem C03_step_rename_replace_partial : forall (s : fsys) (sv : sview) (wo : list str) (clo : str) (w : list str) (cl : str),
   dac_hyps s sv -> path_ok s sv SlLstat (wo ++ [clo]) -> path_ok s sv SlLstat (w ++ [cl]) ->
   source_not_dir s sv (wo ++ [clo]) -> dest_present s sv (w ++ [cl]) -> dest_nondir s sv (w ++ [cl]) ->
-  distinct_nodes s sv (wo ++ [clo]) (w ++ [cl]) ->
   let o := abs_path (wo ++ [clo]) in
   let p := abs_path (w ++ [cl]) in
   proj_res Linux (snd (rename s (sv_view sv) o p)) = snd (go_rename s sv o p).
@@ -373,6 +373,28 @@ Example C03_example_sticky :
      = go_remove DacTree.dfs (DacTree.svu DacTree.alice 18) p
   /\ snd (go_remove DacTree.dfs (DacTree.svu DacTree.alice 18) p) = SErr EPERM.
 Proof. exact DacTree.remove_sticky_refused. Qed.
+
+(* alice's directory /h/s with mode 0500 cannot be moved to another directory (/t): EACCES on both sides, the step
+   theorem applies; within /h it can (the former deviation C03-RENAME-DIR-WRITE) *)
+Example C03_example_rename_dir_write :
+  let o := abs_path ([DacTree.n_h] ++ [DacTree.n_s]) in
+  let p := abs_path ([DacTree.n_t] ++ [DacTree.n_g]) in
+  (fst (rename DacTree.dfs_ro (DacTree.view_of DacTree.alice 18) o p),
+   proj_res Linux (snd (rename DacTree.dfs_ro (DacTree.view_of DacTree.alice 18) o p)))
+  = go_rename DacTree.dfs_ro (DacTree.svu DacTree.alice 18) o p
+  /\ snd (go_rename DacTree.dfs_ro (DacTree.svu DacTree.alice 18) o p) = SErr EACCES
+  /\ snd (go_rename DacTree.dfs_ro (DacTree.svu DacTree.alice 18) o (abs_path ([DacTree.n_h] ++ [DacTree.n_g]))) = SOk.
+Proof. exact DacTree.rename_dir_unwritable_refused. Qed.
+
+(* Rename(/e/q, /e/q) by carol, who may not write /e: success on both sides, no permission is looked at (the former
+   deviation C03-RENAME-SAME) *)
+Example C03_example_rename_same :
+  let o := abs_path ([DacTree.n_e] ++ [DacTree.n_q]) in
+  proj_res Linux (snd (rename DacTree.dfs (DacTree.view_of DacTree.carol 18) o o))
+  = snd (go_rename DacTree.dfs (DacTree.svu DacTree.carol 18) o o)
+  /\ snd (go_rename DacTree.dfs (DacTree.svu DacTree.carol 18) o o) = SOk
+  /\ kperm DacTree.dtree 4 2 DacTree.carol = false.
+Proof. exact DacTree.rename_same_no_permission. Qed.
 
 (* the administrator theorem applies to the initial world of MemFS *)
 Example C03_example_admin : forall um c, call_view (init_world_linux um) c = 0 ->
